@@ -1,3 +1,21 @@
+//! Engine for the shape-inference properties.
+//!
+//! * C11: `SymExpr::{simplify, range, is_positive, eval}` are sound — every
+//!   expression tree up to a depth over a leaf alphabet x every assignment.
+//! * C10: operator shape inference never contradicts execution — every
+//!   single-operator / short shape-arithmetic model of a catalogue x every
+//!   fixed/symbolic mask x every instantiation of a small alphabet.
+
+mod c10;
+mod c10_catalogue;
+mod c11;
+mod symeval;
+
 fn main() {
-    vp_core::machinery_error("engine not built yet");
+    let prop = std::env::args().nth(1).unwrap_or_default();
+    match prop.as_str() {
+        "C11" => c11::run(vp_core::Ctx::from_env("C11")),
+        "C10" => c10::run(vp_core::Ctx::from_env("C10")),
+        _ => vp_core::machinery_error("mc-shape: unknown property (expected C10 or C11)"),
+    }
 }
